@@ -1178,7 +1178,7 @@ func (ex *Exec) evalCall(call *ast.CallExpr, st *State) []Value {
 	}
 	args := ex.evalArgs(call, sig, st)
 	if fi := ex.vc.funcs[funcKey(fn)]; fi != nil && fi.Decl.Body != nil {
-		return ex.callFunc(fi, recv, args, st, call)
+		return ex.applyNoError(call, sig, ex.callFunc(fi, recv, args, st, call), st)
 	}
 	if recv != nil {
 		if _, ok := recv.T.Underlying().(*types.Interface); ok {
@@ -1187,7 +1187,21 @@ func (ex *Exec) evalCall(call *ast.CallExpr, st *State) []Value {
 			}
 		}
 	}
-	return ex.callUnknown(call, sig, recv, args, st, fn.FullName())
+	return ex.applyNoError(call, sig, ex.callUnknown(call, sig, recv, args, st, fn.FullName()), st)
+}
+
+// applyNoError: //@ noerror clauses of the function under verification (third-party calls assumed not to fail).
+func (ex *Exec) applyNoError(call *ast.CallExpr, sig *types.Signature, res []Value, st *State) []Value {
+	if f0 := ex.frames[0]; len(ex.frames) == 1 && f0.fn != nil && f0.fn.Con != nil && len(f0.fn.Con.NoError) > 0 && len(res) > 0 && !st.dead {
+		text := strings.ReplaceAll(nodeText(ex.vc.fset, call.Fun), " ", "")
+		for _, ne := range f0.fn.Con.NoError {
+			if ne == text && isErrorType(sig.Results().At(sig.Results().Len()-1).Type()) {
+				ex.note("ASSUMED: " + text + " returns a nil error in " + f0.fn.Short + " (noerror clause)")
+				st.assume(mkEq(res[len(res)-1].scalar(), mkInt(sortRef, 0)))
+			}
+		}
+	}
+	return res
 }
 
 // evalRecv computes the receiver value for a method call x.m(), inserting & or * as needed.
